@@ -210,3 +210,49 @@ func verifH_C20_refgraphs() {
 	verifExercise([]byte(text), verifChoose("allowExternal", 2) == 1)
 	verifReach("end")
 }
+
+//verif:harness id=C20 tier=quick,thorough witness=end,loaded steps=20000000 bounds="references at every schema keyword position (not, allOf, oneOf, anyOf, items, properties, additionalProperties) x 16 targets: self reference through the position, pure-reference cycle, dangling, and fragments that drill into arrays and maps at, beyond and below their bounds (allOf/0, /1 = length, /2, /-1, /x, required/0, enum/1, empty token, '#/', '#', a scalar's child) x external references allowed or not; load, validate, serialise, internalise, serialise: no panic"
+func verifH_C20_schema_refs() {
+	pos := verifChoose("position", 7)
+	targets := []string{
+		"#/components/schemas/S",          // back to the schema that contains the reference
+		"#/components/schemas/Y1",         // Y1 -> Y2 -> Y1, references only (sorting after S: Validate reaches S first)
+		"#/components/schemas/Missing",    // dangling
+		"#/components/schemas/L/allOf/0",  // a valid drill into an array
+		"#/components/schemas/L/allOf/1",  // index = length
+		"#/components/schemas/L/allOf/2",  // beyond
+		"#/components/schemas/L/allOf/-1", // negative
+		"#/components/schemas/L/allOf/x",  // not a number
+		"#/components/schemas/L/required/0",
+		"#/components/schemas/L/enum/1",
+		"#/components/schemas/L/type/x", // child of a scalar
+		"#/components/schemas//",        // empty tokens
+		"#/",
+		"#",
+		"#/components/parameters/P/schema", // a valid drill through another kind
+		"#/components/schemas/L/properties/q/items",
+	}
+	r := `{"$ref":"` + targets[verifChoose("target", len(targets))] + `"}`
+	var s string
+	switch pos {
+	case 0:
+		s = `{"not":` + r + `}`
+	case 1:
+		s = `{"allOf":[` + r + `]}`
+	case 2:
+		s = `{"oneOf":[{"type":"string"},` + r + `]}`
+	case 3:
+		s = `{"anyOf":[` + r + `]}`
+	case 4:
+		s = `{"type":"array","items":` + r + `}`
+	case 5:
+		s = `{"type":"object","properties":{"p":` + r + `}}`
+	case 6:
+		s = `{"type":"object","additionalProperties":` + r + `}`
+	}
+	text := `{"openapi":"3.0.0","info":{"title":"t","version":"1"},"paths":{"/p":{"get":{"operationId":"g","parameters":[{"$ref":"#/components/parameters/P"}],"responses":{"200":{"description":"d","content":{"application/json":{"schema":{"$ref":"#/components/schemas/S"}}}}}}}},` +
+		`"components":{"parameters":{"P":{"name":"q","in":"query","schema":{"type":"integer"}}},"schemas":{"S":` + s + `,"Y1":{"$ref":"#/components/schemas/Y2"},"Y2":{"$ref":"#/components/schemas/Y1"},` +
+		`"L":{"type":"object","allOf":[{"type":"object"}],"required":["q"],"enum":[{"q":[1]}],"properties":{"q":{"type":"array","items":{"type":"integer"}}}}}}}`
+	verifExercise([]byte(text), verifChoose("allowExternal", 2) == 1)
+	verifReach("end")
+}
